@@ -19,8 +19,8 @@ use serde::{Deserialize, Serialize};
 use serde_json::{json, Value};
 use stream::{ReadFault, SimInput, SimOutput};
 
-pub const QUICK_RUNS: u64 = 700_000;
-pub const THOROUGH_RUNS: u64 = 16_000_000;
+pub const QUICK_RUNS: u64 = 600_000;
+pub const THOROUGH_RUNS: u64 = 12_000_000;
 
 #[derive(Debug, Clone, Copy, PartialEq, Eq, Serialize, Deserialize)]
 pub enum Kind {
@@ -202,6 +202,9 @@ fn encode_one<S: WireTy>(
         }
         (true, Err(_)) => {
             ctx.stats.inc("fault.torn_write");
+            if out.calls_after_failure > 0 {
+                ctx.stats.inc("probe.encoder_wrote_after_failure");
+            }
             if !enc.starts_with(&out.bytes) {
                 ctx.stats.inc("probe.torn_record_not_a_prefix");
             }
